@@ -294,11 +294,41 @@ def perm_abs(A):
 
 
 def base_record(api, scheme, mesh, n):
-    return {"p": "C07", "api": api, "scheme": scheme, "mesh": mesh, "n": int(n), "raised": False}
+    return {"p": "C07", "api": api, "scheme": scheme, "mesh": mesh, "n": int(n), "raised": False, "history": "fresh"}
 
 
-def failed(api, scheme, mesh, n, e):
+HISTORIES = ("fresh", "copy", "reassign")
+
+
+def observe_block(lin, reg, history, prior_none=False):
+    """-> (matrix, the linear object it was read from).
+    fresh:    regularization.regularization_matrix_from(linear_obj)
+    copy:     the object first carries a DIFFERENT scheme (or none) and its block is evaluated once; then the idiom of the library's
+              own tests, `lin = copy.copy(lin); lin.regularization = reg`, and the block is read from linear_obj.regularization_matrix
+    reassign: the same, re-assigning on the same object without copying"""
+    import copy
+
+    import autoarray as aa
+
+    if history == "fresh":
+        return reg.regularization_matrix_from(linear_obj=lin), lin
+    if prior_none:
+        prior = None
+    elif isinstance(reg, aa.reg.Constant) and type(reg) is aa.reg.Constant and reg.coefficient == 1.0:
+        prior = aa.reg.Constant(coefficient=2.0)
+    else:
+        prior = aa.reg.Constant(coefficient=1.0)
+    lin.regularization = prior
+    lin.regularization_matrix  # evaluated once with the other scheme
+    if history == "copy":
+        lin = copy.copy(lin)
+    lin.regularization = reg
+    return lin.regularization_matrix, lin
+
+
+def failed(api, scheme, mesh, n, e, history="fresh"):
     r = base_record(api, scheme, mesh, n)
+    r["history"] = history
     r.update({"raised": True, "err": f"{type(e).__name__}: {str(e)[:120]}"})
     return r
 
@@ -324,20 +354,20 @@ def ridge_by_homogeneity(H, H2, f, m):
 # ------------------------------------------------------------------------------------------------------------
 # records: exact domain on real mappers
 # ------------------------------------------------------------------------------------------------------------
-def exact_record(scheme, mesh, lin, reg, c2q=0, czq=0, unit=QUARTER, need_w=False, desc=None):
+def exact_record(scheme, mesh, lin, reg, c2q=0, czq=0, unit=QUARTER, need_w=False, desc=None, history="fresh", prior_none=False):
     n = int(lin.params)
     try:
-        H = reg.regularization_matrix_from(linear_obj=lin)
+        H, lin = observe_block(lin, reg, history, prior_none)
         w = np.asarray(reg.regularization_weights_from(linear_obj=lin), dtype=float)
         N = table_of(lin)
     except Exception as e:  # an exception is an observation (the schemes must return a matrix)
-        return failed("exact", scheme, mesh, n, e)
+        return failed("exact", scheme, mesh, n, e, history)
     Hq, Hr, ok = alpha_exact(H, unit)
     W, okw = ints_exact(w) if need_w else ([], True)
     r = base_record("exact", scheme, mesh, n)
     r.update({"N": N, "c2q": int(c2q), "czq": int(czq), "W": W, "wlen": int(w.shape[0]) if w.ndim == 1 else -1,
               "rows": shape2(H)[0], "cols": shape2(H)[1], "Hq": Hq, "Hr": Hr, "sym": sym_raw(H),
-              "chol": cholesky_exists(H), "offlattice": not (ok and okw), "desc": desc or {}})
+              "chol": cholesky_exists(H), "offlattice": not (ok and okw), "desc": desc or {}, "history": history})
     _guard_minors(r)
     return r
 
@@ -390,10 +420,13 @@ def records_for_inst(inst, verts, seed):
     rng = np.random.default_rng(seed + 31 * inst["c2q"] + 7 * inst["czq"] + inst["pat"])
     kind, scheme = inst["kind"], inst["scheme"]
     if kind == "blocks":
-        return [blocks_record([(int(o[0]), bool(o[1])) for o in inst["objs"]], seed)]
+        kinds = [(int(o[0]), bool(o[1])) for o in inst["objs"]]
+        return [blocks_record(kinds, seed, history=HISTORIES[(sum(p + 5 * int(g) for p, g in kinds) + len(kinds)) % 3])]
     if kind == "split":
         return [synthetic_split_record(inst["_split"])]
     m = inst["mesh"]
+    hsel = int(inst["c2q"]) + 3 * int(inst["czq"]) + int(inst["pat"]) + int(inst["wa"]) + int(m[1]) + 2 * int(m[2]) + len(scheme)
+    history, prior_none = HISTORIES[hsel % 3], (hsel // 3) % 2 == 1
     desc = {"from": "machine", "mesh": m, "c2q": inst["c2q"], "czq": inst["czq"], "wa": inst["wa"], "wb": inst["wb"], "bright": inst["bright"]}
     if m[0] == "rect":
         my, mx = int(m[1]), int(m[2])
@@ -408,14 +441,15 @@ def records_for_inst(inst, verts, seed):
         n = len(verts)
         mesh = "delaunay"
     if scheme in ("constant", "constant_zeroth", "zeroth"):
-        return [exact_record(scheme, mesh, lin, scheme_object(scheme, inst["c2q"], inst["czq"]), inst["c2q"], inst["czq"], desc=desc)]
+        return [exact_record(scheme, mesh, lin, scheme_object(scheme, inst["c2q"], inst["czq"]), inst["c2q"], inst["czq"], desc=desc,
+                             history=history, prior_none=prior_none)]
     bright = set(int(b) for b in inst["bright"])
     wa, wb = int(inst["wa"]), int(inst["wb"])
     if mesh == "rect":
         ss = float(rng.choice([0.5, 1.0, 2.0, 3.0]))
         reg = (aa.reg.AdaptiveBrightness(inner_coefficient=float(wa), outer_coefficient=float(wb), signal_scale=ss) if scheme == "adaptive"
                else aa.reg.BrightnessZeroth(coefficient=float(wa), signal_scale=ss))
-        return [exact_record(scheme, mesh, lin, reg, unit=1.0, need_w=True, desc=desc)]
+        return [exact_record(scheme, mesh, lin, reg, unit=1.0, need_w=True, desc=desc, history=history, prior_none=prior_none)]
     # Delaunay graphs: the adapt signals of a barycentric mapper are not on a lattice; integer weights go through the assembly functions
     if scheme == "adaptive":
         w = [wa * wa if (k + 1) in bright else wb * wb for k in range(n)]
@@ -585,13 +619,16 @@ def fixed_record(seed, verts_family):
             c = float(rng.uniform(0.2, 2.0))
             reg, reg2 = aa.reg.BrightnessZeroth(c, ss), None
             desc.update({"coefficient": c, "signal_scale": ss})
-        H = np.asarray(reg.regularization_matrix_from(linear_obj=lin), dtype=float)
+        history = HISTORIES[int(rng.integers(0, 3))]
+        H, lin = observe_block(lin, reg, history, bool(rng.integers(0, 2)))
+        H = np.asarray(H, dtype=float)
         w = np.asarray(reg.regularization_weights_from(linear_obj=lin), dtype=float)
         H2 = reg2.regularization_matrix_from(linear_obj=lin) if reg2 is not None else None
         N = table_of(lin)
     except Exception as e:
         return failed("fixed", scheme, mesh, n, e)
     rec = base_record("fixed", scheme, mesh, n)
+    rec["history"] = history
     maxdeg = max([len(x) for x in N] + [1])
     wmax = max(1e-3, float(np.max(np.abs(w)))) if w.size and np.all(np.isfinite(w)) else 1.0
     S = int(min(2 ** 15, pow2_floor(math.sqrt(2.0 ** 29 / (2 * maxdeg * wmax * wmax + 1)))))
@@ -657,7 +694,7 @@ def kernel_record(seed, verts_family, small, wide=None):
 # ------------------------------------------------------------------------------------------------------------
 # records: blocks (inversion level)
 # ------------------------------------------------------------------------------------------------------------
-def blocks_record(kinds, seed, scheme_mix=False):
+def blocks_record(kinds, seed, scheme_mix=False, history="fresh"):
     """kinds: [(p, reg)] with p in KIND_OF_P -> a real aa.Inversion over those linear objects, in that order"""
     import autoarray as aa
     from harness.drivers import inv_common as ic
@@ -678,6 +715,17 @@ def blocks_record(kinds, seed, scheme_mix=False):
     rec["desc"] = {"kinds": [[int(p), bool(g)] for p, g in kinds]}
     try:
         ds, lobjs, skw = ic.build(inst)
+        rec["history"] = history
+        if history != "fresh":
+            # the objects first carry OTHER schemes (a regulariser where the final object has none, none or another coefficient
+            # where it has one) and their blocks are evaluated once through an inversion
+            import copy
+
+            for k, ((p, g), lo) in enumerate(zip(kinds, lobjs)):
+                lo.regularization = aa.reg.Constant(coefficient=1.0) if not g else (None if k % 2 == 0 else aa.reg.Constant(coefficient=3.0))
+            aa.Inversion(dataset=ds, linear_obj_list=lobjs, settings=aa.SettingsInversion(**skw)).regularization_matrix
+            if history == "copy":
+                lobjs = [copy.copy(lo) for lo in lobjs]
         for k, ((p, g), lo) in enumerate(zip(kinds, lobjs)):
             if g:
                 c = BLOCK_COEFF[k % 3]
@@ -727,7 +775,7 @@ def chain_records(seed):
         for scheme in ("constant", "constant_zeroth", "zeroth"):
             c2q, czq = int(rng.choice([1, 4, 16, 36])), int(rng.choice([1, 4, 16, 36]))
             out.append(exact_record(scheme, "chain", lo, scheme_object(scheme, c2q, czq), c2q, czq if scheme == "constant_zeroth" else 0,
-                                    desc={"params": int(lo.params)}))
+                                    desc={"params": int(lo.params)}, history=HISTORIES[int(rng.integers(0, 3))], prior_none=bool(rng.integers(0, 2))))
     return out
 
 
@@ -739,7 +787,8 @@ def exact_random_record(seed, verts_family):
     c2q, czq = int(rng.choice([1, 4, 9, 16, 36])), int(rng.choice([1, 4, 9, 36]))
     if scheme != "constant_zeroth":
         czq = 0
-    return exact_record(scheme, mesh, lin, scheme_object(scheme, c2q, czq if czq else 4), c2q, czq, desc=desc)
+    return exact_record(scheme, mesh, lin, scheme_object(scheme, c2q, czq if czq else 4), c2q, czq, desc=desc,
+                        history=HISTORIES[int(rng.integers(0, 3))], prior_none=bool(rng.integers(0, 2)))
 
 
 # ------------------------------------------------------------------------------------------------------------
@@ -761,7 +810,7 @@ def records_for_job(job):
     elif j == "kernel":
         recs = [kernel_record(job["seed"], fam, job["small"], job.get("wide"))]
     elif j == "blocks":
-        recs = [blocks_record([tuple(k) for k in job["kinds"]], job["seed"], scheme_mix=True)]
+        recs = [blocks_record([tuple(k) for k in job["kinds"]], job["seed"], scheme_mix=True, history=HISTORIES[job["seed"] % 3])]
     else:
         raise core.MachineryError(f"unknown job {j}")
     for r in recs:
